@@ -267,6 +267,29 @@ func checkC18(c *c18Case, r *vstat.Run) outcome {
 		if !ok || pos.Offset < tk.Pos.Offset || pos.Offset > tk.Pos.Offset+len(tk.Value) {
 			return violationf("error-pos", "%s: error %q is not located at the offending token %q at %v", desc, lerr, tk.Value, tk.Pos)
 		}
+		// the parse entry points report the same located error (the mapper runs while they collect the tokens)
+		for _, entry := range []string{"ParseString", "ParseBytes", "Parse"} {
+			var perr error
+			if pm := guard(func() {
+				switch entry {
+				case "ParseBytes":
+					_, perr = p.ParseBytes("f", []byte(input))
+				case "Parse":
+					_, perr = p.Parse("f", strings.NewReader(input))
+				default:
+					_, perr = p.ParseString("f", input)
+				}
+			}); pm != "" {
+				return violationf("panic", "%s: %s panicked: %s", desc, entry, pm)
+			}
+			if perr == nil {
+				return violationf("no-error", "%s: token %q has an escape strconv rejects but %s reported no error", desc, tk.Value, entry)
+			}
+			ppos, ok := errPos(perr)
+			if !ok || ppos != pos || perr.Error() != lerr.Error() {
+				return violationf("error-pos", "%s: %s reports %q (position %v), Parser.Lex reports %q (position %v) for the offending token %q at %v", desc, entry, perr, ppos, lerr, pos, tk.Value, tk.Pos)
+			}
+		}
 		return outcome{}
 	}
 	if lerr != nil {
